@@ -54,6 +54,8 @@ def run(ctx):
 
 def r_panic(ctx, P):
     base = panics.load_baseline()
+    base_guards = panics.load_baseline_guards()
+    ratchet = 0
     tot = 0
     by_tactic = collections.Counter()
     in_base = 0
@@ -80,6 +82,15 @@ def r_panic(ctx, P):
                 continue
             if key in base:
                 in_base += 1
+                need = base_guards.get(key, 0)
+                if need:
+                    have = panics.related_guards(b, i, t)
+                    ratchet += 1
+                    if have < need:
+                        ctx.violation('%s:panic-guard:%s' % (P, key), 'R-panic',
+                                      'reviewed panic-capable site (%s %s) in %s is still dominated by the %d related length/ordering guard(s) it had when it was reviewed' % (kind, detail, p, need),
+                                      function=p, site=site(b, i),
+                                      missing='%d related dominating guard(s) found, %d when reviewed: a check protecting this site was removed or no longer covers every path' % (have, need))
                 continue
             ctx.violation('%s:panic:%s' % (P, key), 'R-panic',
                           'panic-capable site (%s %s) in %s is neither discharged by a tactic nor in the reviewed baseline' % (kind, detail, p),
@@ -87,6 +98,7 @@ def r_panic(ctx, P):
                           missing='no dominating rejecting length/zero comparison on the same value was found; add the guard, or review and list the key in rules/reviewed/panic_baseline.txt')
     ctx.ok(P + ':panic:inventory', 'R-panic', 'all %d panic-capable sites are discharged (%d by tactic) or reviewed (%d in baseline)' % (tot, sum(by_tactic.values()), in_base), count=tot)
     ctx.floor(P + ':panic:floor:sites', 'panic-capable sites inventoried', tot, 1800)
+    ctx.floor(P + ':panic:floor:ratchet', 'reviewed sites whose related dominating guards are re-counted', ratchet, 150)
     ctx.floor(P + ':panic:floor:tactics', 'sites discharged by tactics', sum(by_tactic.values()), 1200)
     ctx.extra = dict(getattr(ctx, 'extra', {}), panic_sites=tot, panic_by_tactic=dict(by_tactic), panic_in_baseline=in_base,
                      panic_baseline_stale=len(set(base) - seen), panic_functions=nfun)
